@@ -2,6 +2,7 @@
 import contextlib
 import json
 import os
+import re
 import shutil
 import tarfile
 import warnings
@@ -621,7 +622,29 @@ def _wrong_callable(rng):
                  schema={"t": "call", "mode": "wrong_at", "at": rng.randrange(len(vals))})
 
 
+TNAMES = ["runs+v2", "exp(1)", "d[old]", "what?", "a+b", "run-v2_x"]     # the last one is harmless
+
+
+def _origin_name(rng):
+    """round 4 (existing_defect2): the NAME of the directory target / origin contains a regular-expression
+    metacharacter; schema string (the class at stake), None and callable (controls); every origin spelling"""
+    vals = rng.sample([1, 10, 100, 2, 3], rng.choice([1, 2, 3, 3]))
+    jobs = [{"sp": typed({"a": v}), "files": _files(rng, i)} for i, v in enumerate(vals)]
+    path = rng.choice([{"t": "none"}, {"t": "none"}, {"t": "fmt", "segs": [["lit", "a/"], ["key", ["a"]]]}, FMT_ID])
+    schema = rng.choice([{"t": "auto_str", "wrong": False}, {"t": "auto_str", "wrong": False}, {"t": "auto_str", "wrong": False},
+                         {"t": "none"}, {"t": "call", "mode": "faithful"}])
+    if len(vals) == 1 and path["t"] == "none":
+        path = {"t": "fmt", "segs": [["lit", "a/"], ["key", ["a"]]]}
+    return _base(universe="origin-name", jobs=jobs, asc=rng.random() < 0.6, path=path, schema=schema,
+                 strip=schema["t"] != "none" and rng.random() < 0.3, tname=rng.choice(TNAMES),
+                 tspell=rng.choice(["abs", "abs", "exp", "./exp"]),
+                 ospell=rng.choice(["abs", "abs", "exp", "./exp", "exp/", "exp/../exp"]))
+
+
 FIXED_R4 = (
+    [_base(universe="origin-name", jobs=[{"sp": typed({"a": v}), "files": {"f.txt": b"f".hex()}} for v in (1, 10, 100)],
+           schema={"t": "auto_str", "wrong": False}, tname=tn, tspell="abs", ospell=osp)
+     for tn, osp in (("runs+v2", "abs"), ("runs+v2", "exp"), ("exp(1)", "abs"), ("d[old]", "./exp"), ("what?", "abs"), ("run-v2_x", "exp"))] +
     # the job with the empty state point, alone (archive root) and next to others, every kind
     [_base(universe="empty-sp-alone", jobs=[{"sp": typed({}), "files": {"f.txt": b"e".hex(), "sub": None, "sub/g": b"g".hex()}}], kind=k)
      for k in ("dir", "zip", "tar", "tar.gz")] +
@@ -638,6 +661,12 @@ FIXED_R4 = (
      for k, st in (("dir", False), ("dir", True), ("zip", False), ("tar", False), ("tar.gz", False))] +
     [_base(universe="trailing-literal", jobs=[{"sp": typed({"a": v, "b": w}), "files": {"data.txt": b"d".hex()}} for v, w in ((1, "x"), (10, "y_1"))],
            kind="dir", path={"t": "fmt", "segs": TRAIL_FMTS[3]}, schema={"t": "auto_str", "wrong": False}, ospell="exp")] +
+    # coverage (notes/cov): '{job.sp.k}' for a key some job lacks; two archive directories claimed for one job
+    [_base(universe="jobsp-missing-key", jobs=[{"sp": typed({"a": 1}), "files": {}}, {"sp": typed({"b": 2}), "files": {}}], kind=k,
+           path={"t": "fmt", "segs": [["lit", "s/"], ["jobsp", ["a"]]]}) for k in ("dir", "zip")] +
+    [_base(universe="empty-sp-claimed", jobs=[{"sp": typed({}), "files": {"f.txt": b"e".hex()}}, {"sp": typed({"a": 1}), "files": {"f.txt": b"1".hex()}}],
+           kind=k, asc=asc, path={"t": "call", "names": ["j0", "j1"], "mode": "uniq"}, schema={"t": "call", "mode": "dup_empty"})
+     for k, asc in (("zip", True), ("tar", True), ("tar.gz", False), ("dir", True), ("dir", False))] +
     # a callable schema that is wrong for one directory: first / middle / last in the listing order
     [_base(universe="wrong-callable", jobs=[{"sp": typed({"a": v}), "files": {"f.txt": b"f".hex()}} for v in (0, 1, 2, 3)],
            kind=k, asc=asc, schema={"t": "call", "mode": "wrong_at", "at": at})
@@ -652,9 +681,9 @@ def gen_inputs(tier, rng):
         descs.append(_one(rng, tier, big=(tier != "quick" and i % 3 == 0) or (tier == "quick" and i % 12 == 0)))
     # round 4: classes of their own, generated AFTER the earlier cases so that those stay as they were
     descs += [dict(d) for d in FIXED_R4]
-    m = 36 if tier == "quick" else 900
+    m = 48 if tier == "quick" else 1200
     for i in range(m):
-        descs.append([_falsy, _trailing, _wrong_callable][i % 3](rng))
+        descs.append([_falsy, _trailing, _wrong_callable, _origin_name][i % 4](rng))
     return descs
 
 
@@ -849,7 +878,10 @@ def run_case(desc):
         by_index = {j.id: i for i, j in enumerate(src_jobs)}
         pre_jobs = [make_job(dstp, jd) for jd in desc["pre"]]
 
-        target = os.path.join(d, "t", "e", "exp" + ("" if kind == "dir" else "." + kind))
+        # the NAME of a directory target (round 4): names with regular-expression metacharacters; the model's
+        # directory is always t/e/exp, the exported tree is presented to it under that name
+        tname = (desc.get("tname") or "exp") if kind == "dir" and not desc.get("tloc") else "exp"
+        target = os.path.join(d, "t", "e", tname + ("" if kind == "dir" else "." + kind))
         # how the directory target / origin is SPELLED (cwd = its parent, always inside the scratch dir):
         # "abs", "exp", "./exp", "exp/" for the export; additionally "exp/../exp", ".//exp" for the import
         # WHERE the directory target lives: normally <case>/t/e/exp; "workspace_old" etc. = a sibling of the
@@ -863,6 +895,8 @@ def run_case(desc):
         if kind != "dir" or tloc:
             tspell = ospell = "abs"
         rel_target = tspell != "abs"
+        if tname != "exp":
+            tspell, ospell = tspell.replace("exp", tname), ospell.replace("exp", tname)
         home_cwd = os.path.join(d, "t", "e")
         if rel_target:
             target = tspell
@@ -946,6 +980,13 @@ def run_case(desc):
                     for k, v in after.items():
                         if k == tgt_rel or k.startswith(tgt_rel + "/"):
                             art["t/e/exp" + k[len(tgt_rel):]] = v
+                elif tname != "exp":
+                    art = {}
+                    for k, v in after.items():
+                        if k == tgt_rel or k.startswith(tgt_rel + "/"):
+                            art["t/e/exp" + k[len(tgt_rel):]] = v
+                        elif k == "t" or k.startswith("t/"):
+                            art[k] = v
                 else:
                     art = {k: v for k, v in after.items() if k == "t" or k.startswith("t/")}
                 cart = "(ADir %s)" % coq_fs(art)
@@ -981,6 +1022,7 @@ def run_case(desc):
             if not i_run:
                 os.chdir(scratch_root())
             i_exn, i_outside = None, []
+            origin_nomatch = False
             s = desc["schema"]
             cschema, schema_txt = "SchNone", None
             calls = {}
@@ -1015,6 +1057,13 @@ def run_case(desc):
                         intended[keys[0]] = None
                     elif s["mode"] == "wrong_one" and keys:
                         intended[keys[-1]] = {"wrong": 1}
+                    elif s["mode"] == "dup_empty" and keys:
+                        # the directory of the job with the EMPTY state point is claimed for another job's state
+                        # point: its own file is falsy, so only the uniqueness test can notice
+                        other = [sp for sp in intended.values() if sp]
+                        for kk in keys:
+                            if intended[kk] == {} and other:
+                                intended[kk] = other[0]
                     elif s["mode"] == "wrong_at" and keys:
                         # wrong in VALUE for one exported directory (the consistency check can see it)
                         intended[keys[s["at"] % len(keys)]] = {"a": -1}
@@ -1032,6 +1081,15 @@ def run_case(desc):
                         return r
                 before_i = snap(d)
                 origin = abs_target if ospell == "abs" else ospell
+                if mk == "dir":
+                    # library fact (re, not signac): does the origin, read as the regex that literal schema text
+                    # becomes (backslashes doubled, '.' escaped), match the origin itself?
+                    root_n = os.path.normpath(origin)
+                    lit = re.sub(r"\\", r"\\\\", root_n).replace(".", r"\.")
+                    try:
+                        origin_nomatch = re.match(lit + r"(/|$)", root_n) is None
+                    except re.error:
+                        origin_nomatch = False       # re.error from signac: the model answers "outside the domain"
                 os.chdir(home_cwd if ospell != "abs" else cwd_deep)
                 try:
                     dstp2 = signac.get_project(os.path.join(d, "dst"))
@@ -1091,12 +1149,12 @@ def run_case(desc):
             coq_bool(asc), coq_ftab, coq_text, coq_parse, coq_bool(rel_target),
             coq_str("" if ospell == "abs" else ospell))
         coq = ("{| c_jobs := %s; c_oracle := %s; c_kind := %s; c_path := %s; c_schema := %s; c_pre := %s; "
-               "c_strip := %s; x_exn := %s; x_map := %s; x_art := %s; x_src_same := %s; x_outside := %s; "
+               "c_strip := %s; c_origin_nomatch := %s; x_exn := %s; x_map := %s; x_art := %s; x_src_same := %s; x_outside := %s; "
                "i_run := %s; i_exn := %s; i_dst := %s; i_outside := %s |}") % (
             coq_list([coq_job(i, sps[i], job_files[i]) for i in ids], "job"), oracle,
             {"dir": "KDir", "zip": "KZip", "tar": "KTar"}[mk], cspec, cschema,
             coq_list([coq_job(j.id, pre_sps[j.id], pre_files[j.id]) for j in pre_jobs], "job"),
-            coq_bool(desc["strip"] and mk in ("dir", "zip")),
+            coq_bool(desc["strip"] and mk in ("dir", "zip")), coq_bool(origin_nomatch),
             coq_exn(x_exn), coq_list([coq_str(x) for x in x_map], "str"), cart, coq_bool(src_same),
             coq_list([coq_str(x) for x in outside], "str"),
             coq_bool(i_run), coq_exn(i_exn), coq_fs(dst_tree), coq_list([coq_str(x) for x in i_outside], "str"))
@@ -1115,7 +1173,9 @@ def run_case(desc):
             kinds.append("origin-spelling=" + ospell)
             if tloc:
                 kinds.append("target-next-to-workspace")
-        key = json.dumps({k: desc.get(k) for k in ("jobs", "asc", "kind", "path", "schema", "pre", "strip", "rel", "tspell", "ospell", "tloc")}, sort_keys=True)
+            if tname != "exp":
+                kinds.append("target-name-with-regex-metacharacter" if origin_nomatch else "target-name-other")
+        key = json.dumps({k: desc.get(k) for k in ("jobs", "asc", "kind", "path", "schema", "pre", "strip", "rel", "tspell", "ospell", "tloc", "tname")}, sort_keys=True)
         return Case(coq, desc, obs=obs, nontrivial=len(ids) >= 2, key=key, kinds=kinds)
 
 
